@@ -22,7 +22,9 @@ BOUNDS = ('exact rational arithmetic (no IEEE rounding: the statement allows rou
           'fault cancel/interrupt/close on transfer 0; UnboundedPipe; zero volume')
 ASSUMPTIONS = [
     'throughput and limits are concrete (symbolic limits would make the terms non-linear)',
-    'floating point rounding is outside the claim (exact rationals only)',
+    'floating point rounding is outside the solver-decided claim (exact rationals); each '
+    'validated path is additionally executed with the same numbers as Python floats and compared '
+    'with the fluid model up to a relative 1e-6',
 ]
 
 F = Fraction
@@ -34,6 +36,7 @@ CONFIGS2 = [
     (F(1), (None, F(1, 2))),       # default limit
     (F(2), (F(4), F(1))),          # transfer 0 alone exceeds the pipe; transfer 1 may start later
     (F(2), (F(8), None)),          # ... followed by a default-limit transfer
+    (F(2), (F(10 ** 17), F(3))),   # an own limit far above the pipe's throughput (allowed)
 ]
 CONFIGS3 = [
     (F(2), (F(1), F(1), F(1))),
@@ -170,6 +173,41 @@ def fam_pipe(E, configs, fault_kinds, pmax=1, unbounded=False, placements=True, 
                 else True, 'never-faster-than-own-limit')
 
 
+    # IEEE doubles: the solver decides the exact-rational behaviour; in the concrete validation
+    # run of the path (its model as plain numbers) the scenario is executed once more with the
+    # same numbers as Python floats and must agree with the fluid model up to rounding
+    if E.concrete and fault.kind == Fault.NONE and not unbounded:
+        fpipe = Pipe(throughput=float(theta))
+        flog = Log(note=False)
+
+        def ftransfer(i):
+            async def run():
+                if i:
+                    await (time + float(starts[i]))
+                if limits[i] is None:
+                    await fpipe.transfer(float(vols[i]))
+                else:
+                    await fpipe.transfer(float(vols[i]), throughput=float(limits[i]))
+                flog(i, 'done')
+            return run
+
+        async def froot():
+            async with Scope() as top:
+                for i in range(n):
+                    top.do(ftransfer(i)())
+
+        fout = simulate(froot(), log=flog)
+        E.prove(fout.exc is None, 'float-run-ends-normally', fout.exc)
+        for i in range(n):
+            dn = flog.first(i, 'done')
+            if model[i] is None or dn is None:
+                continue
+            want = float(model[i])
+            E.prove(abs(float(dn[2]) - want) <= 1e-6 * (1.0 + abs(want)),
+                    'float-run-agrees-with-fluid-model-up-to-rounding',
+                    ('transfer %d finished at %r with floats, fluid model %r', i, dn[2], want))
+
+
 ALLF = [Fault.NONE, Fault.CANCEL, Fault.INTERRUPT, Fault.CLOSE]
 FAMILIES = [
     Family('two', fam_pipe,
@@ -177,7 +215,7 @@ FAMILIES = [
            thorough=dict(configs=CONFIGS2, fault_kinds=ALLF, pmax=2),
            reach=['none', 'cancel', 'interrupt', 'close', 'fault-hits-running-transfer',
                   'zero-volume'],
-           bounds='2 transfers, 6 configurations, attacker before / after the victim'),
+           bounds='2 transfers, 7 configurations, attacker before / after the victim'),
     Family('three', fam_pipe,
            quick=dict(configs=CONFIGS3[:2], fault_kinds=[Fault.NONE]),
            thorough=dict(configs=CONFIGS3[:2], fault_kinds=[Fault.NONE, Fault.CANCEL],
